@@ -59,7 +59,7 @@ def extra(ctx):
         return dict(coverage=dict(race_run="harness build with -race failed: " + blog[-300:]),
                     violations=[("C11-corpus-0", "race-harness-build-failed", "")])
     ids = list(ctx["cases"].keys())[:RACE_SUBSET]
-    env = dict(os.environ, FROZEN_CONCURRENCY="0", C11_MARK="1", HARNESS_WORKERS="1", HARNESS_TIMEOUT_MS="120000",
+    env = dict(os.environ, FROZEN_CONCURRENCY="0", C11_MARK="1", HARNESS_WORKERS="1", HARNESS_TIMEOUT_MS="600000",
                GORACE="halt_on_error=0 history_size=3")
     procs = []
     for k in range(RACE_PROCS):
@@ -97,12 +97,19 @@ def extra(ctx):
     violations, seen = [], set()
     for r_ in ours:
         cid = r_["case"] or ids[0]
-        key = tuple(a["innermost"] for a in r_["accesses"])
+        key = (cid,) + tuple(a["innermost"] for a in r_["accesses"])
         if key in seen:
             continue
         seen.add(key)
         desc = "DATA RACE: " + " vs ".join(f'{a["access"]} in {a["innermost"]} ({a["at"]})' for a in r_["accesses"])
-        violations.append((cid, desc, "race detector, FROZEN_CONCURRENCY=0"))
+        c = ctx["cases"].get(cid)
+        if c is not None and c["cls"] == "good":
+            # make the race the observable of the case it happened in: ./check then reports it in case order
+            # (corpus first) with a replay file that names the programs
+            if not str(ctx["results"].get(cid, "")).startswith("DATA RACE"):
+                ctx["results"][cid] = desc
+        else:
+            violations.append((cid, desc, "race detector, FROZEN_CONCURRENCY=0"))
     # the results under -race must also be the specified ones
     wrong = 0
     for cid in ids:
@@ -130,7 +137,9 @@ def extra(ctx):
 
 PROP = dict(
     quick_n=160, thorough_n=1500,
-    env={"FROZEN_CONCURRENCY": "0", "HARNESS_TIMEOUT_MS": "30000"},
+    # generous watchdog: the getOrAdd operations detect a lost wake-up themselves (8 s without progress); a whole-case
+    # timeout only has to catch a wedged evaluation, and must not fire on a merely overloaded machine
+    env={"FROZEN_CONCURRENCY": "0", "HARNESS_TIMEOUT_MS": "180000", "HARNESS_WORKERS": "8"},
     extra=extra,
     trusted_base=[
         "Go's sync primitives behave as documented: Mutex/RWMutex give mutual exclusion, Once.Do runs f at most once and "
